@@ -53,6 +53,18 @@ def _run(sc, r, scratch, i):
     else:
         target = os.path.join(d, "rel target")
     target_arg = os.path.relpath(target, troot) if where == "relative" else target
+    dotdot = where in ("outside", "relative") and r.random() < 0.35
+    if dotdot:
+        # DIR spelled with `..` after a symlink to a directory elsewhere: the kernel resolves `cur/..` to the parent of the
+        # link's target (d/store/deep), not to the directory the link lies in (d/via)
+        real_parent = os.path.join(d, "store", "deep")
+        os.makedirs(os.path.join(real_parent, "current"))
+        os.makedirs(os.path.join(d, "via"))
+        os.symlink(os.path.join(real_parent, "current"), os.path.join(d, "via", "cur"))
+        name = os.path.basename(target)
+        target = os.path.join(real_parent, name)
+        via = os.path.relpath(os.path.join(d, "via"), troot) if where == "relative" else os.path.join(d, "via")
+        target_arg = via + "/cur/../" + name
     tb = fse(target)
     inv0 = inventory.take(troot)
     all_paths = [p for g in rep.groups for p in g["files"]]
@@ -249,7 +261,7 @@ def _run(sc, r, scratch, i):
     sig = (sp, sc["fmt"], tuple(sorted(collisions.values())), (fault or {}).get("ops"), (fault or {}).get("errno"), copies > 0,
            len(moved), len(stayed)) if interesting else None
     counts = {"moved": len(moved), "stayed": len(stayed), "collisions": len(collisions), "copied_cross_device": copies,
-              "faults_fired": 1 if fault else 0, "where": [where], "collision_kinds": sorted(set(collisions.values()))}
+              "faults_fired": 1 if fault else 0, "where": [where + ("+dotdot-after-symlink" if dotdot else "")], "collision_kinds": sorted(set(collisions.values()))}
     return [ok(sig, {"where": where, "moved": len(moved), "stayed": len(stayed), "collisions": sorted(collisions.values()),
                      "fault": fault}, counts)]
 
